@@ -390,10 +390,22 @@ func (f *Formatter) formatSubroutineDeclaration(decl *ast.SubroutineDeclaration)
 	// Format subroutine parameters if exists
 	if len(decl.Parameters) > 0 {
 		args := make([]string, len(decl.Parameters))
+		var afterParams ast.Comments
 		for i, param := range decl.Parameters {
-			args[i] = param.Type.String() + " " + param.Name.String()
+			name := param.Name
+			if i == len(decl.Parameters)-1 && len(name.Trailing) > 0 {
+				// The comments behind ")" are attached to the last parameter.
+				// They are printed behind ")", in front of it the parser would drop them
+				meta := *name.Meta
+				afterParams, meta.Trailing = meta.Trailing, nil
+				name = &ast.Ident{Meta: &meta, Value: name.Value}
+			}
+			args[i] = param.Type.String() + " " + name.String()
 		}
 		buf.WriteString("(" + strings.Join(args, ", ") + ")")
+		for _, c := range afterParams {
+			buf.WriteString(" " + c.String())
+		}
 	}
 
 	buf.WriteString(" ")
